@@ -4,6 +4,7 @@
 set -uo pipefail
 cd "$(dirname "$0")"; . ./env.sh
 ./trimcache.sh
+exec 9>/tmp/kmipsa-gocache.lock; flock -s 9   # compiling: the build cache must not be dropped meanwhile
 ID=$1; V=$2; SRC=${3:-/tmp/seed-out/$ID/$V}
 WT=/tmp/seedchk/$ID-$V
 rm -rf "$WT"; git -C /repo worktree prune; mkdir -p /tmp/seedchk
